@@ -105,13 +105,13 @@ func ruleC05Dash(c *Ctx) {
 		core.EachInstr(fn, func(i ssa.Instruction) {
 			switch x := i.(type) {
 			case *ssa.Store:
-				if fa, ok := x.Addr.(*ssa.FieldAddr); ok && c.ownerName(fa.X.Type()) == "Schema" {
+				if fa, ok := x.Addr.(*ssa.FieldAddr); ok && c.fieldOwner(fa) == "Schema" {
 					writes[core.CanonFieldOf(fa.X.Type(), fa.Field)] = true
 				}
 			case *ssa.MapUpdate:
 				for _, s := range traceSources(x.Map) {
 					if ld, ok := s.(*ssa.UnOp); ok {
-						if fa, ok := ld.X.(*ssa.FieldAddr); ok && c.ownerName(fa.X.Type()) == "Schema" {
+						if fa, ok := ld.X.(*ssa.FieldAddr); ok && c.fieldOwner(fa) == "Schema" {
 							writes[core.CanonFieldOf(fa.X.Type(), fa.Field)+"[]"] = true
 						}
 					}
@@ -119,7 +119,7 @@ func ruleC05Dash(c *Ctx) {
 			case ssa.CallInstruction:
 				// address of a field handed to a decoder or helper
 				for _, a := range x.Common().Args {
-					if fa, ok := peelIface(a).(*ssa.FieldAddr); ok && c.ownerName(fa.X.Type()) == "Schema" {
+					if fa, ok := peelIface(a).(*ssa.FieldAddr); ok && c.fieldOwner(fa) == "Schema" {
 						writes[core.CanonFieldOf(fa.X.Type(), fa.Field)] = true
 					}
 				}
@@ -524,7 +524,7 @@ func ruleC05Integers(c *Ctx) {
 			}
 			var sfield, wfield string
 			for _, a := range call.Common().Args {
-				if fa, ok := a.(*ssa.FieldAddr); ok && c.ownerName(fa.X.Type()) == "Schema" {
+				if fa, ok := a.(*ssa.FieldAddr); ok && c.fieldOwner(fa) == "Schema" {
 					sfield = core.CanonFieldOf(fa.X.Type(), fa.Field)
 				}
 				for _, s := range traceSources(a) {
@@ -834,20 +834,20 @@ func ruleC05UnionVariants(c *Ctx) {
 			var val ssa.Value
 			switch x := i.(type) {
 			case *ssa.Store:
-				if fa, ok := x.Addr.(*ssa.FieldAddr); ok && c.ownerName(fa.X.Type()) == "Schema" {
+				if fa, ok := x.Addr.(*ssa.FieldAddr); ok && c.fieldOwner(fa) == "Schema" {
 					field, at, val = core.CanonFieldOf(fa.X.Type(), fa.Field), x, x.Val
 				}
 			case *ssa.MapUpdate:
 				for _, s := range traceSources(x.Map) {
 					if ld, ok := s.(*ssa.UnOp); ok {
-						if fa, ok := ld.X.(*ssa.FieldAddr); ok && c.ownerName(fa.X.Type()) == "Schema" {
+						if fa, ok := ld.X.(*ssa.FieldAddr); ok && c.fieldOwner(fa) == "Schema" {
 							field, at = core.CanonFieldOf(fa.X.Type(), fa.Field), x
 						}
 					}
 				}
 			case *ssa.Call:
 				if core.CalleeKey(&x.Call) == "encoding/json.Unmarshal" {
-					if fa, ok := peelIface(x.Call.Args[1]).(*ssa.FieldAddr); ok && c.ownerName(fa.X.Type()) == "Schema" {
+					if fa, ok := peelIface(x.Call.Args[1]).(*ssa.FieldAddr); ok && c.fieldOwner(fa) == "Schema" {
 						field, at = core.CanonFieldOf(fa.X.Type(), fa.Field), x
 					}
 				}
